@@ -20,6 +20,7 @@ import tr_common
 from vlib import TranslatorError
 
 LIST = "EXTENSION_OPS_WITH_SIDE_EFFECTS"
+CUSTOM_Q = '(if String.eqb e "" then n else e ++ "." ++ n)'
 
 
 def _ext_bindings(mod):
@@ -244,7 +245,7 @@ def translate(core_path, ext_ops, rows):
         "Definition may_have_side_effect (o : op) : bool :=",
         "  match o with",
         f"  | OExt q => {branch(pr['ext'], 'q')}",
-        f"  | OCustom e n => {branch(pr['custom'], '(if String.eqb e "" then n else e ++ "." ++ n)')}".replace('""', '""'),
+        "  | OCustom e n => " + branch(pr["custom"], CUSTOM_Q),
         f"  | OCall => {coq_bool(cls.get('Call', pr['default']))}",
         f"  | OCallIndirect => {coq_bool(cls.get('CallIndirect', pr['default']))}",
         f"  | OOther c => if mem_str c other_true then true else if mem_str c other_false then false else {coq_bool(pr['default'])}",
